@@ -142,4 +142,119 @@ theorem only_requested (st : State) (paths : List String) (d : String) (hr : st.
   rw [hr]
   by_cases hw : d ∈ paths <;> simp [hw, h]
 
+/-! ### the connection is ready exactly when a device is selected — for every input, well-formed or not -/
+
+/-- the invariant -/
+def Ready (st : State) : Prop := st.enabled = true ↔ st.selected.isSome
+
+theorem ready_init (name : Option String) : Ready (State.init name) := by simp [Ready, State.init]
+
+theorem ready_devices_go (st st' : State) (devs : List Json) (h : Ready st)
+    (hgo : parseDevices.go st devs = .ok st') : Ready st' := by
+  induction devs generalizing st with
+  | nil => simp [parseDevices.go] at hgo; subst hgo; exact h
+  | cons d rest ih =>
+    cases d with
+    | obj kv =>
+      simp only [parseDevices.go] at hgo
+      cases hg : Json.get kv "path" with
+      | none => simp [hg] at hgo
+      | some pj =>
+        simp only [hg] at hgo
+        cases hs : isStr pj with
+        | none => simp [hs] at hgo
+        | some name =>
+          simp only [hs] at hgo
+          cases hr : st.requested with
+          | none => simp [hr] at hgo; subst hgo; simp [Ready]
+          | some want =>
+            simp only [hr] at hgo
+            by_cases hw : want = name
+            · simp [hw] at hgo; subst hgo; simp [Ready]
+            · simp [hw] at hgo; exact ih st h hgo
+    | null => simp [parseDevices.go] at hgo
+    | bool b => simp [parseDevices.go] at hgo
+    | num => simp [parseDevices.go] at hgo
+    | str s => simp [parseDevices.go] at hgo
+    | arr xs => simp [parseDevices.go] at hgo
+
+theorem ready_line (st st' : State) (l : Line) (h : Ready st) (hl : parseLine st l = .ok st') : Ready st' := by
+  cases l with
+  | notJson => simp [parseLine] at hl; subst hl; exact h
+  | tooDeep => simp [parseLine] at hl; subst hl; exact h
+  | value j =>
+    cases j with
+    | obj kvs =>
+      simp only [parseLine] at hl
+      split at hl
+      · split at hl
+        · simp at hl
+        · simp at hl; subst hl; exact h
+      · unfold parseDevices at hl
+        split at hl
+        · simp at hl
+        · exact ready_devices_go st st' _ h hl
+        · simp at hl
+      · simp at hl; subst hl; exact h
+    | null => simp [parseLine] at hl; subst hl; exact h
+    | bool b => simp [parseLine] at hl; subst hl; exact h
+    | num => simp [parseLine] at hl; subst hl; exact h
+    | str s => simp [parseLine] at hl; subst hl; exact h
+    | arr xs => simp [parseLine] at hl; subst hl; exact h
+
+theorem ready_chunk (st st' : State) (c : Chunk) (h : Ready st) (hc : parseChunk st c = .ok st') : Ready st' := by
+  cases c with
+  | undecodable => simp [parseChunk] at hc; subst hc; exact h
+  | lines ls =>
+    simp only [parseChunk] at hc
+    induction ls generalizing st with
+    | nil => simp [List.foldlM] at hc; cases hc; exact h
+    | cons l rest ih =>
+      simp only [List.foldlM] at hc
+      cases h1 : parseLine st l with
+      | error e => simp [h1, bind, Except.bind] at hc
+      | ok st1 => simp [h1, bind, Except.bind] at hc; exact ih st1 (ready_line st st1 l h h1) hc
+
+/-- **`setup()` does not return before the connection is ready, and then a device is selected** -/
+theorem enable_ready (st st' : State) (cs : List Chunk) (h : Ready st) (he : enable st cs = .ok (some st')) :
+    st'.enabled = true ∧ ∃ d, st'.selected = some d := by
+  induction cs generalizing st with
+  | nil => simp [enable] at he
+  | cons c rest ih =>
+    simp only [enable] at he
+    cases hc : parseChunk st c with
+    | error e => simp [hc] at he
+    | ok st1 =>
+      simp only [hc] at he
+      have hr := ready_chunk st st1 c h hc
+      by_cases hen : st1.enabled = true
+      · simp [hen] at he; subst he
+        exact ⟨hen, Option.isSome_iff_exists.mp (hr.mp hen)⟩
+      · simp [hen] at he; exact ih st1 hr he
+
+/-- **commands are only ever addressed to the selected device**: whatever the handshake delivered, a command sent
+    after `setup()` is `&`, the selected device, `=`, and the hexadecimal form of the bytes -/
+theorem addressed_to_selected (name : Option String) (cs : List Chunk) (st : State) (hdr data : List Nat)
+    (hs : setup name cs = .ok (some (st, hdr))) :
+    st.enabled = true ∧ ∃ d, st.selected = some d ∧
+      commandAfterSetup hdr data = command (d.toList.map Char.toNat) data := by
+  unfold setup at hs
+  cases he : enable (State.init name) cs with
+  | error e => simp [he, Except.map] at hs
+  | ok r =>
+    cases r with
+    | none => simp [he, Except.map] at hs
+    | some st0 =>
+      simp [he, Except.map] at hs
+      obtain ⟨h1, h2⟩ := hs
+      subst h1
+      obtain ⟨hen, d, hd⟩ := enable_ready _ _ cs (ready_init name) he
+      refine ⟨hen, d, hd, ?_⟩
+      simp [commandAfterSetup, command, ← h2, cmdHeader, hd]
+
+/-- non-vacuity: two chunks, the second lists the requested device -/
+example : (match setup (some "/dev/b") [.lines [.notJson], .lines [.value (.obj [("class", .str "DEVICES"),
+      ("devices", .arr [.obj [("path", .str "/dev/a")], .obj [("path", .str "/dev/b")]])])]] with
+    | .ok (some (st, _)) => st.selected | _ => none) = some "/dev/b" := by decide
+
 end C20
